@@ -24,7 +24,7 @@ func atoi(s string) int { n, _ := strconv.Atoi(s); return n }
 func replayFrame(kind string, f map[string]string) (string, bool) {
 	switch kind {
 	case "ws":
-		c := &wsCase{ops: strings.Split(f["ops"], ";"), fault: atoi(f["fault"]), wf: f["wf"] == "1", rdconc: atoi(f["rdconc"])}
+		c := &wsCase{ops: strings.Split(f["ops"], ";"), fault: atoi(f["fault"]), once: f["once"] == "1", wf: f["wf"] == "1", rdconc: atoi(f["rdconc"])}
 		return runWS(c), true
 	case "rs":
 		c := &rsCase{in: unhex(f["in"]), ops: strings.Split(f["ops"], ";"), frag: atoi(f["frag"]), fault: atoi(f["fault"]), conc: atoi(f["conc"])}
@@ -345,7 +345,7 @@ func compWS(o *out, seed uint64, tier string) {
 		}
 	}
 	// 3. reuse and misuse: all sequences up to length L over a small alphabet (C17), both modes
-	alpha := []string{"A:bc=1", "W:h:68656c6c6f", "W:g:1,3,70000", "RF:h:776f726c64|0", "F", "C", "R"}
+	alpha := []string{"A:bc=1", "A:bs=5", "W:h:68656c6c6f", "W:g:1,3,70000", "RF:h:776f726c64|0", "F", "C", "R"}
 	L := 3
 	if tier == "thorough" {
 		L = 4
@@ -356,6 +356,11 @@ func compWS(o *out, seed uint64, tier string) {
 			for _, conc := range []int{1, 2} {
 				ops := append([]string{fmt.Sprintf("A:bs=4,conc=%d", conc)}, prefix...)
 				emit(&wsCase{ops: ops, wf: false, rdconc: 1}, "lifecycle")
+			}
+			if len(prefix) == L {
+				// the same from a Writer configured with a larger block size, closing the last frame
+				ops := append(append([]string{"A:bs=6,conc=1"}, prefix...), "A:bs=4", "W:g:1,3,70000", "C")
+				emit(&wsCase{ops: ops, wf: false, rdconc: 1}, "lifecycle-blocksize-change")
 			}
 		}
 		if len(prefix) == L {
@@ -374,6 +379,15 @@ func compWS(o *out, seed uint64, tier string) {
 			ops = append(ops, alpha[r.intn(len(alpha))])
 		}
 		emit(&wsCase{ops: ops, wf: false, rdconc: 1}, "lifecycle-random")
+	}
+	// 4a. legacy frames written concurrently with a failing sink: nothing follows the blocks, so
+	//     only the pipeline's own error report can surface the failure
+	for i := 0; i < 4*mult; i++ {
+		n := []int{100, 70000, 1000}[r.intn(3)]
+		ops := []string{fmt.Sprintf("A:bs=4,leg=1,conc=%d", 2+r.intn(3)), fmt.Sprintf("W:g:%d,%d,%d", r.intn(4), r.intn(99), n), "C"}
+		for k := 1; k <= 3; k++ {
+			emit(&wsCase{ops: ops, fault: k, once: r.intn(2) == 0, wf: false, rdconc: 1}, "sink-fault-legacy-concurrent")
+		}
 	}
 	// 4. sink failing at its k-th call, every k up to the fault-free call count
 	for i := 0; i < 6*mult; i++ {
@@ -409,6 +423,8 @@ func compWS(o *out, seed uint64, tier string) {
 		}
 		for k := 1; k <= probe.calls; k++ {
 			emit(&wsCase{ops: ops, fault: k, wf: false, rdconc: 1}, "sink-fault")
+			// a transient failure (that call only): the failure must still be reported
+			emit(&wsCase{ops: ops, fault: k, once: true, wf: false, rdconc: 1}, "sink-fault-once")
 		}
 	}
 }
@@ -545,6 +561,52 @@ func compRS(o *out, seed uint64, tier string) {
 			emit(&rsCase{in: f, ops: ops, frag: 0, conc: 1}, "valid", content, "dependent-blocks-long")
 		}
 	}
+	// a full-window (64 KiB) block followed by a block whose first match reaches back almost 65535
+	// bytes after a very short literal run; read with small buffers, large buffers and WriteTo
+	for i := 0; i < 6*mult; i++ {
+		first := r.bytes(65536)
+		var blocks []gblock
+		if r.intn(2) == 0 {
+			blocks = append(blocks, gblock{stored: first, raw: true, dec: first})
+		} else {
+			// compressed: 16 literals then one long match of the remaining bytes at offset 16
+			for j := 16; j < len(first); j++ {
+				first[j] = first[j-16]
+			}
+			blocks = append(blocks, gblock{stored: encodeSeqs([]gseq{{first[:16], 16, 65536 - 16 - 8}}, first[65536-8:], true), dec: first})
+		}
+		content := append([]byte{}, first...)
+		var seqs []gseq
+		var dec []byte
+		for k := 0; k < 1+r.intn(3); k++ {
+			ll := 1 + r.intn(3)
+			lits := r.bytes(ll)
+			dec = append(dec, lits...)
+			off := 65535 - r.intn(60)
+			if off > len(content)+len(dec) {
+				off = len(content) + len(dec)
+			}
+			ml := 4 + r.intn(30)
+			for j := 0; j < ml; j++ {
+				all := len(content) + len(dec)
+				p := all - off
+				if p < len(content) {
+					dec = append(dec, content[p])
+				} else {
+					dec = append(dec, dec[p-len(content)])
+				}
+			}
+			seqs = append(seqs, gseq{lits, off, ml})
+		}
+		last := r.bytes(6)
+		dec = append(dec, last...)
+		blocks = append(blocks, gblock{stored: encodeSeqs(seqs, last, true), dec: dec})
+		content = append(content, dec...)
+		fr := buildFrame(false, r.intn(2) == 1, true, 4, -1, blocks, false)
+		for _, ops := range [][]string{{"RA:1000"}, {"RA:4096"}, {"RA:65535"}, {"RM"}, {"WT"}, {"RA:65536"}} {
+			emit(&rsCase{in: fr, ops: ops, frag: 0, conc: 1}, "valid", content, "dependent-full-window-block")
+		}
+	}
 	hostile := func(words ...uint32) []byte {
 		var b []byte
 		for _, w := range words {
@@ -626,6 +688,41 @@ func compCR(o *out, seed uint64, tier string) {
 		mult = 8
 	}
 	bs := 65536
+	// buffers that end exactly at the end of a block (nothing spilled into the overflow) while the
+	// source still has data: sizes are read off the frame produced with one huge buffer
+	for i := 0; i < 6*mult; i++ {
+		n := 2*bs + r.intn(bs)
+		opts := fmt.Sprintf("bs=4,bc=%d,cc=%d,lvl=0", r.intn(2), r.intn(2))
+		data := fmt.Sprintf("g:%d,%d,%d", []int{0, 1, 3}[r.intn(3)], r.intn(500), n)
+		probe := iso("cr", (&crCase{data: data, opts: opts, sizes: []int{4 << 20}}).fields(), 30*time.Second)
+		var frame []byte
+		for _, kv := range strings.Split(probe, " ") {
+			if strings.HasPrefix(kv, "out=") {
+				frame = unhex(kv[4:])
+			}
+		}
+		if len(frame) < 20 {
+			continue
+		}
+		// end of the first block: 7-byte header, 4-byte size word, payload, optional checksum
+		w := int(binary.LittleEndian.Uint32(frame[7:]) & 0x7fffffff)
+		end1 := 7 + 4 + w
+		if strings.Contains(opts, "bc=1") {
+			end1 += 4
+		}
+		for _, next := range []int{end1 + 100, 4096, 1, 70000} {
+			c := &crCase{data: data, opts: opts, sizes: []int{end1, next, 100000}, frag: 0}
+			obs := iso("cr", c.fields(), 30*time.Second)
+			out := ""
+			for _, kv := range strings.Split(obs, " ") {
+				if strings.HasPrefix(kv, "out=") {
+					out = kv[4:]
+				}
+			}
+			o.emit("cr", c.fields()+" iout="+out, obs, true)
+			o.count("buffer-ends-at-block-end")
+		}
+	}
 	szc := []int{0, 1, 3, 6, 7, 8, 15, 100, 5000, 70000, 300000}
 	for i := 0; i < 160*mult; i++ {
 		n := []int{0, 1, 50, 1000, bs - 1, bs, bs + 1, 2 * bs}[r.intn(8)]
